@@ -335,6 +335,11 @@ func (w *World) waitChannel(t int, d time.Duration) grpc.ClientConnInterface {
 	return nil
 }
 
+// negotiateOff: this legacy raw forward client sends the negotiate header with a value other than "on"
+func negotiateOff(cfg Config, m map[string]string) bool {
+	return cfg.Mode == "fwd" && cfg.RawClient && cfg.CLegacy && m["to"] != ""
+}
+
 func (w *World) openTunnelOpt(m map[string]string, settle bool) {
 	ts := &tunnelState{peer: m["peer"]}
 	w.mu.Lock()
@@ -369,6 +374,8 @@ func (w *World) openTunnelOpt(m map[string]string, settle bool) {
 		}
 		if adv {
 			eff.Set("grpctunnel-negotiate", "on")
+		} else if negotiateOff(w.cfg, m) {
+			eff.Set("grpctunnel-negotiate", "off")
 		}
 		if w.cfg.Mode == "fwd" {
 			eff.Set("x-stub", "1")
@@ -405,6 +412,9 @@ func (w *World) openTunnelOpt(m map[string]string, settle bool) {
 		octx := ctx
 		if !cfg.CLegacy {
 			octx = metadata.AppendToOutgoingContext(ctx, "grpctunnel-negotiate", "on")
+		} else if negotiateOff(cfg, m) {
+			// a legacy client that names the header without asking for negotiation
+			octx = metadata.AppendToOutgoingContext(ctx, "grpctunnel-negotiate", "off")
 		}
 		stream, _ := w.stub.OpenTunnel(octx)
 		ts.rawC = &rawClientEnd{
